@@ -26,6 +26,25 @@ def build_and_score(I, case):
     elif case["model"] == "rtree":
         from sklearn.tree import DecisionTreeClassifier
         model = DecisionTreeClassifier(splitter="random", max_features=1, max_depth=2)      # draws from numpy's GLOBAL generator (random_state=None)
+    elif case["model"] == "pipe_rtree":
+        # the randomised learner sits INSIDE a composite estimator that has no random_state attribute of its own
+        from sklearn.tree import DecisionTreeClassifier
+        from sklearn.pipeline import Pipeline
+        from sklearn.preprocessing import StandardScaler
+        model = Pipeline([("sc", StandardScaler()), ("t", DecisionTreeClassifier(splitter="random", max_features=1, max_depth=2))])
+    elif case["model"] == "custom_global":
+        # a plain estimator (no random_state parameter) that draws from numpy's global generator while fitting
+        from sklearn.base import BaseEstimator, ClassifierMixin
+
+        class CoinFlip(BaseEstimator, ClassifierMixin):
+            def fit(self, X, y):
+                self.classes_ = np.unique(y)
+                self.pick_ = self.classes_[np.random.randint(len(self.classes_))]
+                return self
+
+            def predict(self, X):
+                return np.full(len(X), self.pick_)
+        model = CoinFlip()
     elif case["model"] == "rforest":
         from sklearn.ensemble import RandomForestClassifier
         model = RandomForestClassifier(n_estimators=3, max_depth=2)
